@@ -30,10 +30,12 @@ Every hypothesis of a registered theorem is one of:
   to its right (`all_zero_end` shows both are needed), the fresh label of `splice_one_new`, "the textgrid
   ended where the audio ended" of `splice_sync`.
 * **needed, and the real code misbehaves without it** (a `_counterexample` theorem each, replayed on the
-  code): a monotone, non-collapsing search in `zcTier_I_mono` (`tgBoundaries_collapse_counterexample`); an
-  insertion point inside the span (`splice_outside_counterexample`); a segment with the audio's rate and width
-  (`splice_segment_params_counterexample`); completeness of the search is not a hypothesis but is not a
-  theorem either (`incomplete_counterexample`).
+  code): a monotone, non-collapsing search in `zcTier_I_mono` (`tgBoundaries_collapse_counterexample`);
+  completeness of the search is not a hypothesis but is not a theorem either (`incomplete_counterexample`).
+* **were needed and are now enforced by the code** (defect C18-3, repaired by f81e27e; section 14b): an insertion
+  point inside the textgrid's span (`splice_outside_rejected`; `splice_outside_counterexample` records what the
+  unrepaired code returned), a segment with the audio's rate and width (`splice_params_rejected`;
+  `splice_segment_params_counterexample`), a region that is not reversed (`splice_reversed_rejected`).
 
 Removed by the audit: label already stripped (`splice_*`: the entry carries `pyStrip label`), insertion point
 inside the tier's span (`splice_tier_spec`, `splice_one_new`, `splice_tier_straddler`, `insertSpace_tier_hi`),
